@@ -214,6 +214,10 @@ func main {
 	fmt.Println("sum", p.x+p.y)
 }
 `},
+	// position constants (__LINE__, __FUNC__, __FILE__, __COLUMN__): predeclared
+	// objects every type check of the process shares, with per-use values
+	{"pos_v", "v.wa", "func main {\n\tprintln(__FUNC__, __LINE__)\n\tprintln(__LINE__, __COLUMN__)\n\thelperV()\n}\n\nfunc helperV {\n\tprintln(__FUNC__, __LINE__, __FILE__)\n\tprintln(__LINE__)\n}\n"},
+	{"pos_w", "w.wa", "// w: the same constants on other lines, in other functions\n\n\nfunc helperW {\n\tprintln(__LINE__)\n\tprintln(__FUNC__, __LINE__, __FILE__)\n\n\tprintln(__LINE__,   __COLUMN__)\n}\n\nfunc main {\n\thelperW()\n\tprintln(__FUNC__, __LINE__)\n}\n"},
 }
 
 // callers may share a base configuration and clone it per call with their own
